@@ -106,6 +106,9 @@ func cmdM3(args []string) error {
 						how = *cancel
 					}
 					tok := r.FreeCall(m, size, k, grng.Intn(2) == 0, how, time.Duration(grng.Intn(2000))*time.Microsecond)
+					if tok == 0 {
+						return
+					}
 					mu.Lock()
 					toks = append(toks, tok)
 					mu.Unlock()
